@@ -35,7 +35,7 @@ TIERS = {
     # cost: enum bound (items after the prefix); ne: elements per stream; rt: (alphabet size, max length) round-trip sets
     "quick": dict(cost={"w8": 8, "w16": 8}, ne=2, rt={"w8": [(2, 11), (3, 7)], "w16": [(2, 12), (3, 8)]},
                   mut={"w8": [(2, 9)], "w16": [(2, 9), (3, 6)]}, unbounded=True, prod_parse_max=3000, prod_scale=1),
-    "thorough": dict(cost={"w8": 11, "w16": 10}, ne=3, rt={"w8": [(2, 15), (3, 10)], "w16": [(2, 17), (3, 10)]},
+    "thorough": dict(cost={"w8": 11, "w16": 10}, ne=3, rt={"w8": [(2, 14), (3, 9)], "w16": [(2, 15), (3, 9)]},
                      mut={"w8": [(2, 12), (3, 7)], "w16": [(2, 13), (3, 8)]}, unbounded=True, prod_parse_max=12000, prod_scale=3),
 }
 # model class of the decoder as written / reason given by the abstract layer / sanitizer text  ->  finding key
